@@ -1,4 +1,5 @@
 import PepitVerif.Math.AddPointSpec
+import PepitVerif.Math.OracleInv
 
 /-!
 # Property C07: oracle bookkeeping is coherent for leaf and composite functions
@@ -41,3 +42,160 @@ end Pepit.C07
 
 #print axioms Pepit.C07.leaf_reuse
 #print axioms Pepit.C07.lookup_pruned
+
+/-! ## the invariant over every sequence of calls -/
+
+namespace Pepit.C07
+
+/-- a call of the oracle layer on a world of declared functions -/
+inductive Call where
+  | oracle (f : Nat) (x : PDict)      -- `f.oracle(x)` and `f.gradient(x)` (same bookkeeping)
+  | value (f : Nat) (x : PDict)       -- `f.value(x)`
+
+def Call.valid (w : AW) : Call → Prop
+  | .oracle f x => f < w.funs.length ∧ (Dict.keys x).Nodup
+  | .value f x => f < w.funs.length ∧ (Dict.keys x).Nodup
+
+def step (w : AW) : Call → AW
+  | .oracle f x => (oracleA w f x).1
+  | .value f x => (valueA w f x).1
+
+theorem valueA_inv (w : AW) (f : Nat) (x : PDict) (hf : f < w.funs.length) (hx : (Dict.keys x).Nodup)
+    (hi : OInv w) : OInv (valueA w f x).1 := by
+  unfold valueA
+  cases lookupTriple (w.getF f).pts x with
+  | some t => exact hi
+  | none => exact oracleA_inv w f x hf hx hi
+
+theorem record_len (w : AW) (f : Nat) (t : ATriple) : (w.record f t).funs.length = w.funs.length := by
+  simp [AW.record, AW.setPts]
+
+theorem oracleLeafA_len (w : AW) (f : Nat) (x : PDict) : (oracleLeafA w f x).1.funs.length = w.funs.length := by
+  unfold oracleLeafA
+  simp only
+  cases lookupTriple (w.getF f).pts x with
+  | some t => by_cases hr : (w.getF f).reuse = true <;> simp [hr, AW.record, AW.setPts]
+  | none => simp [AW.record, AW.setPts]
+
+theorem distribute_len (x : PDict) : ∀ (terms : List (Nat × Coef)) (w : AW) (gl : PDict) (fl : EDict),
+    (distribute x w terms gl fl).funs.length = w.funs.length := by
+  intro terms
+  induction terms with
+  | nil => intro w gl fl; rfl
+  | cons hd rest ih =>
+    obtain ⟨fn, wt⟩ := hd
+    intro w gl fl
+    cases rest with
+    | nil => simp only [distribute]; exact record_len w fn _
+    | cons hd2 rest2 => simp only [distribute]; rw [ih]; exact oracleLeafA_len w fn x
+
+theorem addPointA_len (w : AW) (f : Nat) (t : ATriple) : (addPointA w f t).funs.length = w.funs.length := by
+  unfold addPointA
+  simp only
+  split
+  · exact record_len w f t
+  · split
+    · simp [AW.setDecomp, record_len]
+    · rw [distribute_len]; simp [AW.setDecomp, record_len]
+
+theorem oracleA_len (w : AW) (f : Nat) (x : PDict) : (oracleA w f x).1.funs.length = w.funs.length := by
+  unfold oracleA
+  by_cases hl : (w.getF f).isLeaf = true
+  · simp only [hl, if_true]; exact oracleLeafA_len w f x
+  · simp only [hl, Bool.false_eq_true, if_false]
+    have h0 : (w.setDecomp f (Dict.prune (w.getF f).decomp)).funs.length = w.funs.length := by simp [AW.setDecomp]
+    split
+    · exact h0
+    · simp only
+      split <;> split <;> (try split) <;> simp only [addPointA_len] <;> exact h0
+
+theorem step_len (w : AW) (c : Call) : (step w c).funs.length = w.funs.length := by
+  cases c with
+  | oracle f x => exact oracleA_len w f x
+  | value f x =>
+    simp only [step]; unfold valueA
+    cases lookupTriple (w.getF f).pts x with
+    | some t => rfl
+    | none => exact oracleA_len w f x
+
+/-- run a sequence of calls -/
+def run (w : AW) (calls : List Call) : AW := calls.foldl step w
+
+/-- **for every world of declared functions in which the invariant holds (in particular every world in
+which nothing has been evaluated yet) and every finite sequence of oracle / gradient / value calls on
+existing functions, in any order, on leaf and composite functions alike, the invariant holds at the
+end**: stored dictionaries are well formed and every triplet recorded on a composite function is the
+weighted sum of triplets recorded at the same point on its terms -/
+theorem run_inv : ∀ (calls : List Call) (w : AW), OInv w → (∀ c ∈ calls, Call.valid w c) → OInv (run w calls) := by
+  intro calls
+  induction calls with
+  | nil => intro w hi _; exact hi
+  | cons c rest ih =>
+    intro w hi hv
+    have hc := hv c List.mem_cons_self
+    have hstep : OInv (step w c) := by
+      cases c with
+      | oracle f x => exact oracleA_inv w f x hc.1 hc.2 hi
+      | value f x => exact valueA_inv w f x hc.1 hc.2 hi
+    apply ih (step w c) hstep
+    intro c' hc'
+    have := hv c' (List.mem_cons_of_mem _ hc')
+    cases c' with
+    | oracle f x => exact ⟨by rw [step_len]; exact this.1, this.2⟩
+    | value f x => exact ⟨by rw [step_len]; exact this.1, this.2⟩
+
+/-- a world in which functions are declared and nothing is evaluated satisfies the invariant as soon as
+its composites are well structured -/
+theorem oinv_of_fresh (w : AW) (hs : Struct w) (hempty : ∀ f, (w.getF f).pts = []) : OInv w := by
+  refine ⟨?_, hs, ?_⟩
+  · intro f t ht; rw [hempty f] at ht; cases ht
+  · intro f _ _ t ht; rw [hempty f] at ht; cases ht
+
+/-- non-vacuity: two leaves (one differentiable, one not), the composite `2·f₀ − f₁`; calls in an order
+that exercises "term evaluated before the sum" and "sum evaluated again" -/
+def demoWorld : AW :=
+  { funs := [{ isLeaf := true, decomp := [(0, 1)], reuse := true }, { isLeaf := true, decomp := [(1, 1)], reuse := false },
+             { isLeaf := false, decomp := [(0, 2), (1, -1)], reuse := false }], nP := 2, nE := 0 }
+
+theorem demo_prune : Dict.prune (demoWorld.getF 2).decomp = [(0, 2), (1, -1)] := by decide +kernel
+
+theorem demo_inv : OInv demoWorld := by
+  apply oinv_of_fresh
+  · intro f hf hleaf
+    have hcases : f = 0 ∨ f = 1 ∨ f = 2 := by
+      have : f < 3 := hf
+      omega
+    rcases hcases with rfl | rfl | rfl
+    · exact absurd hleaf (by decide)
+    · exact absurd hleaf (by decide)
+    · rw [demo_prune]
+      refine ⟨?_, by decide, ?_⟩
+      · intro tw htw
+        simp only [List.mem_cons, List.mem_nil_iff, or_false] at htw
+        rcases htw with rfl | rfl <;> exact ⟨by decide, by decide⟩
+      · intro _; exact ⟨(1, -1), by simp, by decide⟩
+  · intro f
+    have : ∀ g, (demoWorld.getF g).pts = [] := by
+      intro g
+      unfold AW.getF demoWorld
+      simp only [List.getD_eq_getElem?_getD]
+      match g with
+      | 0 => rfl
+      | 1 => rfl
+      | 2 => rfl
+      | (n + 3) => rfl
+    exact this f
+
+/-- the hypotheses of `run_inv` are met by a concrete world and a concrete call sequence -/
+example : OInv (run demoWorld [.oracle 0 [(0, 1)], .oracle 2 [(0, 1)], .value 2 [(1, 1)], .oracle 2 [(0, 1)]]) := by
+  apply run_inv _ _ demo_inv
+  intro c hc
+  simp only [List.mem_cons, List.mem_nil_iff, or_false] at hc
+  rcases hc with rfl | rfl | rfl | rfl <;> exact ⟨by decide, by decide⟩
+
+example : ((run demoWorld [.oracle 0 [(0, 1)], .oracle 2 [(0, 1)], .value 2 [(1, 1)], .oracle 2 [(0, 1)]]).getF 2).pts.length = 3 := by
+  decide +kernel
+
+end Pepit.C07
+
+#print axioms Pepit.C07.run_inv
